@@ -126,10 +126,15 @@ def explain_with_switches(prog, pred, out, allowed, make_ev=None):
   if not allowed or out.kind != 'rows':
     return None
 
+  undecidable = []
+
   def agrees(sw):
     ev = make_ev(sw) if make_ev else evaluator.Evaluator(prog, switches={s: True for s in sw})
     try:
       cols, table = expected_table(ev, pred)
+    except (evaluator.Ambiguous, evaluator.Capped):
+      undecidable.append(sw)     # under this deviation the reference depends on a tie choice: not judged
+      return False
     except Exception:
       return False
     return compare.compare_tables(table, cols, out.rows, out.columns, col_types(prog, pred, cols)) is None
@@ -140,6 +145,8 @@ def explain_with_switches(prog, pred, out, allowed, make_ev=None):
     for sub in itertools.combinations(allowed, k):
       if agrees(sub):
         return list(sub)
+  if undecidable:
+    return 'undecidable'
   return None
 
 
@@ -191,3 +198,103 @@ def classify_order_sensitive_rejection(prog, res, prop, tries=8, switches=None):
     except evaluator.Unsupported:
       pass
   return None
+
+
+# ---------------------------------------------------------------------------------------------
+# generic case runner used by C01, C02 (and, through variants, C07 / C08 / C11)
+
+def run_program_case(ctx, prop, prog, text, info, allowed_switches=(), baseline=None, extra_classify=None,
+                     sample_rate=0.01):
+  """Runs every concrete predicate of one generated program and reports to ctx.
+  allowed_switches: deviation switches that may explain a mismatch (open findings of this property).
+  baseline: switches that are on from the start (open findings of another property)."""
+  ctx.journal(dict(info, program=text))
+  ctx.count('programs')
+  for k, v in prog.get('features', {}).items():
+    ctx.count('feature_' + k, v)
+  rules, bad = pipeline.parse_program(text)
+  if bad:
+    ctx.count('parse_' + bad.kind)
+    ctx.violation(None, 'generated valid program rejected at parse: %s' % (bad.message or '')[:300],
+                  dict(info, program=text, observed=bad.brief()))
+    return
+  ev = evaluator.Evaluator(prog, switches=dict(baseline or {}))
+  for pred in concrete_preds(prog):
+    try:
+      res = check_predicate(prog, text, rules, pred, ev)
+    except evaluator.Unsupported as e:
+      ctx.count('generator_outside_fragment')
+      ctx.note('reference does not define %s: %s' % (pred, str(e)[:200]))
+      continue
+    ctx.count('predicates')
+    ctx.count(res.status)
+    ctx.case(stable_hash([text, pred]), res.status == 'ok' and res.nontrivial)
+    if res.status in ('ok', 'discarded'):
+      if res.status == 'ok' and res.nontrivial and ctx.rng.random() < sample_rate:
+        ctx.sample({'program': text, 'predicate': pred, 'columns': res.outcome.columns, 'rows': res.outcome.rows[:8]})
+      continue
+    keys = None
+    if res.status == 'mismatch' and allowed_switches:
+      sw = explain_with_switches(prog, pred, res.outcome, list(allowed_switches),
+                                 make_ev=lambda s: evaluator.Evaluator(prog, switches=dict(baseline or {}, **{x: True for x in s})))
+      if sw == 'undecidable':
+        ctx.count('discarded_tie_under_known_deviation')
+        continue
+      if sw:
+        keys = [SWITCH_KEY[s] for s in sw]
+        ctx.count('explained_by_known_deviation')
+    if keys is None and res.status == 'diagnostic':
+      k = classify_order_sensitive_rejection(prog, res, prop, switches=dict(baseline or {}))
+      if k:
+        keys = [k]
+    if keys is None and extra_classify is not None:
+      k = extra_classify(prog, res)
+      if k:
+        keys = [k]
+    what = {'mismatch': 'rows differ from the denoted multiset', 'diagnostic': 'valid program rejected',
+            'internal': 'internal error instead of rows'}[res.status]
+    for key in (keys or [None]):
+      ctx.violation(key, '%s for predicate %s: %s' % (what, pred, (res.detail or '')[:300]),
+                    witness(prog, text, res, info))
+
+
+class Collector:
+  """Stand-in for the shard context when a witness is replayed."""
+
+  def __init__(self, seed=0):
+    import random
+    self.rng = random.Random(seed)
+    self.v = []
+    self.counters = {}
+    self.params = {}
+    self.tier = 'quick'
+
+  def journal(self, *a, **k):
+    pass
+
+  def count(self, name, k=1):
+    self.counters[name] = self.counters.get(name, 0) + k
+
+  def case(self, *a, **k):
+    pass
+
+  def sample(self, *a, **k):
+    pass
+
+  def note(self, *a, **k):
+    pass
+
+  def table(self, *a, **k):
+    pass
+
+  def violation(self, key, what, wit):
+    self.v.append((key, what, wit))
+
+  def report(self):
+    lines = []
+    for key, what, wit in self.v:
+      lines.append('FAIL [%s] %s' % (key, what))
+      for f in ('program', 'variant', 'expected', 'observed'):
+        if wit.get(f) is not None:
+          lines.append('%s: %s' % (f, wit.get(f)))
+    return bool(self.v), '\n'.join(lines)
